@@ -29,6 +29,16 @@ CLAIMED = {
              "test on the same key leading to a diagnostic, renames force a re-check, success returns are dominated by the "
              "parameter loop. Not decided: that disambiguation succeeds whenever it could.",
         ref="DESIGN.md §4 C09"),
+    "C18": dict(
+        technique="def-use analysis on the template flow graph (skeleton event streams per generated scope) x producibility of fixed names by the naming pipeline (statically evaluated reserved list)",
+        text="For every generated scope (class body, each def, nested defs) of model.py.jinja and endpoint_module.py.jinja the "
+             "templates are unrolled (branches in sequence, loops twice, macros inlined per dispatch candidate) into BIND/READ "
+             "events of template-written identifiers and of document-name holes with their affixes; a fixed name that a hole "
+             "can produce (reserved list evaluated from the AST, snake-case fixed points, per-root name languages) must collide "
+             "harmlessly. The set of fixed names is read from the templates on every run, so a template edit that introduces an "
+             "unprotected name is reported; 47 genuine captures of the pinned tree are listed by (scope, name, kind, site), each "
+             "reproduced dynamically once (findings/repro_c18.py).",
+        ref="DESIGN.md §4 C18"),
 }
 
 NOT_APPLICABLE = {
